@@ -228,7 +228,7 @@ let () =
        | None -> print_endline "SKIP"
        | Some v -> (match round_trip v with
            | None -> print_endline "GENERR"
-           | Some (text, back) -> Printf.printf "T %s | %s flat=%d\n" (hex_of_bytes text) (match back with RtOk b -> "OK " ^ show_jv b | RtErr -> "ERR" | RtPanic -> "PANIC") (if flat_ok v then 1 else 0)))
+           | Some (text, back) -> Printf.printf "T %s | %s flat=%d\n" (hex_of_bytes text) (match back with RtOk b -> "OK " ^ show_jv b | RtErr -> "ERR" | RtPanic -> "PANIC") (if in_domain v then 1 else 0)))
     | ("hdr" | "cd" | "rgspec" | "crv" | "cfgb" | "jprop" | "jtyped" | "upat" | "umatch" | "uext" | "ubuild") :: args ->
       let a1 = (match args with x :: _ -> x | [] -> "") in
       let a2 = (match args with _ :: y :: _ -> y | _ -> "") in
